@@ -15,6 +15,9 @@ func TestDbgC03Full(t *testing.T) {
 	}
 	cfg := hapi.Config{FastKeys: 1, Concurrent: 1}
 	hist := []SeqOp{op(0, L(0, 1, 1, 0, 20, 0, 1)), tick(2 * sec), op(0, withF(L(0, 1, 1, 0, 1, 0, 0), 0x02)), tick(2 * sec)}
+	if os.Getenv("DBGC03FULL") == "c04" {
+		hist = []SeqOp{op(0, L(0, 1, 1, 0, 4, 2, 0)), op(1, L(0, 1, 4, 6, 4, 2, 0)), tick(3 * sec), tick(3 * sec)}
+	}
 	for _, full := range []bool{false, true} {
 		spec := &SeqSpec{Name: "dbg", Cfg: cfg, Drain: true, Full: full, NoDedupe: true}
 		run, e := ExecSeq(spec, hist)
